@@ -45,14 +45,20 @@ class Ctx:
     def oblige(self, state, kind, line, goal, detail=''):
         if getattr(self, 'muted', False):
             return
+        structural = False
         if isinstance(goal, bool):
             if goal:
                 return
             goal = z3.BoolVal(False)
+            # a loop-invariant clause that is False as a *Python* value (an isinstance / number-of-axes test of the sidecar
+            # invariant): the loop no longer has the structure the invariant describes - nothing is decided about the code
+            structural = kind.startswith(('inv-init', 'inv-pres'))
         k = '%s@%s' % (kind, line)
         n = self.n_ob.get(k, 0)
         self.n_ob[k] = n + 1
-        self.obls.append(Obligation('%s#%d' % (k, n), kind, line, state.pc, goal, detail=detail))
+        ob = Obligation('%s#%d' % (k, n), kind, line, state.pc, goal, detail=detail)
+        ob.structural = structural
+        self.obls.append(ob)
 
 
 class State:
